@@ -19,7 +19,7 @@ Extraction Language OCaml.
 Extraction "model"
   Z.add Z.mul Z.sub Z.div Z.modulo Z.compare Z.of_nat Z.to_nat Z.opp Z.eqb Z.ltb Z.leb
   seq_nr_offset seq_sub seq_cmp WRAP_TOLERANCE c09_obs_ok
-  rtte_default rtte_trace rtte_cfg_ok c16_ok
+  rtte_default rtte_trace rtte_cfg_ok c16_ok c16_exact_ok
   RTTE_MIN_RTO RTTE_MAX_RTO CLOCK_GRANULARITY RTTE_INITIAL_RTT
   rx_build rx_trace rx_run c04_ok
   segments_new seg_trace seg_run
